@@ -66,3 +66,19 @@ rec('Rcv22', pgn=INT, session=INT, message_size=INT, num_segments=INT, next_pack
     num_segments_max_rec=INT, data=TList(INT), deadline=REAL, src_address=INT, dest_address=INT)
 rec('Mpg22', deadline=REAL, cpg=TList(TRef('Cpg')), fill_level=INT)
 rec('Cpg', priority=INT, tos=INT, tf=INT, cpgn=INT, data_length=INT, data=TList(INT))
+
+# ---- DM14 memory access (client, server, facade)
+cls('Dm14Query',
+    _ca=TRef('ControllerApplication'), state=TEnum('QueryState'), _seed_from_key=TOpt(TFunc(INT, True)),
+    data_queue=TQueue(TOpt(OCTETS)), exception_queue=TQueue(TRef('PyException')), mem_data=TOpt(OCTETS), user_level=INT,
+    command=TEnum('Command'), object_count=INT, address=INT, direct=INT, _dest_address=INT, _pgn=INT, bytes=OCTETS,
+    object_byte_size=INT, signed=BOOL, return_raw_bytes=BOOL)
+cls('DM14Server',
+    _ca=TRef('ControllerApplication'), _busy=BOOL, sa=TOpt(INT), state=TEnum('ResponseState'), _key_from_seed=TOpt(TFunc(INT, True)),
+    data_queue=TQueue(OCTETS), _seed_generator=TFunc(INT), address=TOpt(OCTETS), length=INT, proceed=BOOL, data=OCTETS,
+    error=INT, edcp=INT, status=INT, direct=INT, pgn=INT, _pgn=INT, command=INT, pointer_type=INT, object_count=INT,
+    access_level=INT, key=TOpt(INT), seed=TOpt(INT))
+cls('MemoryAccess',
+    _ca=TRef('ControllerApplication'), query=TRef('Dm14Query'), server=TRef('DM14Server'), state=TEnum('DMState'),
+    seed_security=BOOL, _notify_query_received=TOpt(TFunc()), _seed_key_valid=TOpt(BOOL), _proceed_function=TOpt(TFunc(BOOL)),
+    proceed=BOOL, address=INT)
